@@ -298,6 +298,62 @@ def s_text_roundtrip():
 
 
 # ---------------------------------------------------------------------------------------------------------------
+# 2b. two different keys that look alike: equal 4-byte fingerprints (found by enumeration of small secret exponents and
+#     kept in gen/data_fingerprint_twins.json), equal chain code, depth, parent fingerprint and child number
+
+
+def _twins():
+    import json
+    import os
+    with open(os.path.join(os.path.dirname(os.path.dirname(os.path.abspath(__file__))), "gen", "data_fingerprint_twins.json")) as f:
+        return json.load(f)
+
+
+def o_twins(case):
+    code = case["net"]
+    net = NET(code)
+    vers = versions(code, "bip32")
+    ka, kb, _fp = _twins()[case["pair"] % len(_twins())]
+    if case["swap"]:
+        ka, kb = kb, ka
+    c = bytes.fromhex(case["c"])
+    refs = [R.Node(k, None, c, case["depth"], bytes.fromhex(case["pfp"]), case["index"]) for k in (ka, kb)]
+    if refs[0].fingerprint() != refs[1].fingerprint() or refs[0].K == refs[1].K:
+        from vlib.core import HarnessError
+        raise HarnessError("fingerprint twin table entry %r does not collide under the reference" % ((ka, kb),))
+    private = bool(case["private"])
+    texts = [R.text(r if private else r.public(), private, vers[0] if private else vers[1]) for r in refs]
+    labels = ["net=" + code, "private" if private else "public"]
+    nodes = [net.parse.bip32(t) for t in texts]
+    for who, (node, ref) in enumerate(zip(nodes, refs)):
+        compare("twins-parse", node, ref if private else ref.public(), vers, "%s.parse.bip32(%r)" % (code, texts[who]))
+    # the same children are asked of one twin, then of the other: each must get its own
+    for i, hardened in case["children"]:
+        if hardened and not private:
+            continue
+        idx = i + (HARD if hardened else 0)
+        for who in (0, 1):
+            parent = refs[who] if private else refs[who].public()
+            want = (R.ckd_priv(parent, idx) if private else R.ckd_pub(parent, idx))
+            if want is None:
+                continue
+            got = nodes[who].subkey(i, is_hardened=bool(hardened))
+            compare("twins-derive", got, want, vers, "%s twin %d (k=%d, fingerprint %s) child %d%s" % (
+                code, who, (ka, kb)[who], _fp, i, "H" if hardened else ""))
+            labels.append("derived")
+    return labels
+
+
+def s_twins():
+    return st.fixed_dictionaries({
+        "net": st.sampled_from([p[0] for p in BIP32_PAIRS]), "pair": st.integers(0, 63), "swap": st.booleans(),
+        "c": st.one_of(common.hexbytes(32, 32), st.just("00" * 32)), "depth": st.sampled_from([0, 1, 3, 254]),
+        "pfp": st.one_of(common.hexbytes(4, 4), st.just("00000000")), "index": st.sampled_from([0, 1, HARD, 2**32 - 1]),
+        "private": st.sampled_from([1, 1, 0]),
+        "children": st.lists(st.tuples(st.sampled_from([0, 1, 2, 7, 2**31 - 1]), st.sampled_from([0, 0, 1])).map(list), min_size=1, max_size=3)})
+
+
+# ---------------------------------------------------------------------------------------------------------------
 # 3. range spellings: subkeys("0/1H/0-4"), "2,5,9-11", hardening marks H p ' on items and ranges
 
 
@@ -568,6 +624,10 @@ SUBCHECKS = [
                   "number 0..2^32-1, private or public) serialised by the reference under the network's bip32/bip49/bip84 version "
                   "bytes: parse.<kind>, <kind>_prv, <kind>_pub return a node equal in every field whose hwif is the same text; one "
                   "child derived from the parsed node == reference (or refused: hardened from public)"),
+    SubCheck("fingerprint_twins", o_twins, strategy=s_twins, budget=(240, 10000), nontrivial=lambda c, l: "derived" in l,
+             rule="two different keys with equal BIP32 fingerprints (16 pairs of small secret exponents found by enumeration), given the same "
+                  "chain code, depth, parent fingerprint and child number, parsed from their xprv / xpub texts; the same 1-3 children are derived "
+                  "from one and then from the other: every field of every node equals the reference for its own key"),
     SubCheck("range_spellings", o_ranges, strategy=s_ranges, budget=(600, 20000),
              nontrivial=lambda c, l: "dash-range" in l or "comma-list" in l,
              rule="subkeys(range text) with 1-4 components made of items n, lo-hi, comma lists, hardening marks H/p/' on items and "
